@@ -62,6 +62,20 @@ def plan(prop, tier, seed):
     if f is None:
         return None
     p = f(q, seed)
+    if not q:
+        # thorough tier: the newer workload families also run under AddressSanitizer (a tenth of the volume)
+        extra = []
+        for j in p["jobs"]:
+            if j.get("engine") == "e1" and "kind" not in j and any(t in j["label"] for t in ("CONSUME", "weakescape", "stale", "dropvariants", "ELIDE-consume", "deadclone", "layout")):
+                if any(x["label"] == j["label"].replace("-e1", "-e2") for x in p["jobs"]):
+                    continue
+                c = e2(j)
+                if c["label"] == j["label"]:
+                    c["label"] = j["label"] + "-e2"
+                c["hi"] = c["lo"] + max(1000, (j["hi"] - j["lo"]) // 10)
+                c["time_limit"] = min(300, j.get("time_limit", 60))
+                extra.append(c)
+        p["jobs"] = p["jobs"] + extra
     p.setdefault("level", "exploration")
     p.setdefault("assumptions", E1_ASSUME)
     return p
